@@ -28,7 +28,7 @@ KINDS = ["ok", "ok", "ok", "readonly", "full-announced", "full-later", "fail-all
 
 
 def plan(tier):
-    n = 50 if tier == "quick" else 2500
+    n = 100 if tier == "quick" else 2500
     return [{"kind": "hyp", "n": n} for _ in range(16)]
 
 
@@ -41,7 +41,15 @@ def cases(draw):
     servers = [[draw(st.sampled_from(KINDS)), draw(st.integers(0, 12))] for _ in range(nserv)]
     seg = draw(st.sampled_from([k * 8, 64]))
     size = max(56, seg * draw(st.integers(1, 3)) - draw(st.integers(0, seg - 1)))
-    pre = draw(st.one_of(st.none(), st.lists(st.tuples(st.integers(0, nserv - 1), st.integers(0, n - 1)).map(list), max_size=n + 2)))
+    pre = draw(st.one_of(st.none(), st.lists(st.tuples(st.integers(0, nserv - 1), st.integers(0, n - 1)).map(list), max_size=n + 2), st.just("prior")))
+    if pre == "prior":
+        # the layout an earlier upload to the first j servers leaves behind (several shares per server); the upload under test then sees a bigger grid and
+        # usually a higher threshold, so it must spread duplicates of existing shares onto new servers
+        j = draw(st.integers(1, nserv))
+        pre = [[i % j, i] for i in range(n)]
+        happy = draw(st.integers(min(n, j), n))
+        if draw(st.booleans()):
+            servers = [[draw(st.sampled_from(["ok", "ok", "ok", "fail-write", "fail-close", "disconnect"])), draw(st.integers(0, 6))] if i >= j else ["ok", 0] for i in range(nserv)]
     return {"k": k, "n": n, "happy": happy, "servers": servers, "seg": seg, "size": size, "pre": pre,
             "sched": draw(st.lists(st.integers(0, 12), max_size=draw(st.sampled_from([0, 30, 200]))))}
 
